@@ -115,6 +115,31 @@ def classify(x: float) -> str:
     return 'num'
 
 
+def short(x: float, bits: int) -> float:
+    """x rounded to `bits` mantissa bits (exactly representable in float32 for bits <= 24)."""
+    m, e = math.frexp(x)
+    return math.ldexp(round(m * 2 ** bits), e - bits)
+
+
+F32_MIN_NORMAL, F32_MAX = 2.0 ** -126, 3.4e38
+
+
+def const_class(dt_E: str, eunit: str, tunit: str, length_units) -> str:
+    """Input class used only to make violation signatures specific (inelastic kernels): is m_n/2,
+    expressed in the unit [energy] ([time]/[length])^2 built from the operand units, a normal float32
+    number?  (Relevant for float32 energies: an implementation that folds the unit factors into one
+    single-precision constant needs it to be.)  Computed from exact SI factors, not from the code."""
+    from .refmap import MN
+
+    if dt_E != 'float32':
+        return 'normal'
+    for lu in length_units:
+        c = float(MN / 2 / (si(eunit) * (si(tunit) / si(lu)) ** 2))
+        if not F32_MIN_NORMAL <= c <= F32_MAX:
+            return 'm_n/2 outside the normal float32 range in the operand-derived unit'
+    return 'normal'
+
+
 def run_trace(ctx, module: str, events: list, what: str, timeout: int = 1500):
     """Write events as NDJSON, let TLC (workers=1) judge every one, return [(line, tid, clause)]."""
     if not events:
